@@ -102,11 +102,16 @@ PROPS = {
     "C19": ("proof", "Type-level frame condition: Regex, Match, Error are Send + Sync + DeepFrozen (no UnsafeCell "
             "reachable, dependencies included) - a &Regex cannot be written through, so no interleaving or earlier "
             "query can change a result; plus unsafe-site and global-state inventory."),
-    "C20": ("other", "Forward searcher only: inductive single step of RegexSearcher::next from every cursor state (a step starts "
-            "at the cursor, ends on a char boundary, the cursor moves to its end; Match exactly for the regex's next match; "
-            "Done only at the end and sticky), with the matcher replaced by an arbitrary deterministic oracle, on a 4-byte "
-            "haystack with a 2-byte character. The zero-width-match case is a KNOWN FINDING (F7). NOT covered: next_back "
-            "(it rescans from offset 0 on every call: the harness does not close), Pattern-level consumers (find, split)."),
+    "C20": ("other", "Per-step contracts of the Searcher and ReverseSearcher. UNBOUNDED (Verus, on the function text extracted "
+            "from src/api.rs, for haystacks of any length and any regex): RegexSearcher::next - a step starts at the cursor, "
+            "ends on a char boundary, the cursor moves to its end; Reject up to the regex's next match, Match exactly for it, "
+            "Done only at the end and sticky - with find_from(..).next() as an uninterpreted first-match function (C09's "
+            "contract, assumed); RegexSearcher::next_back likewise, with find_last_match_before as an ASSUMED contract. "
+            "BOUNDED (Kani, feature pattern, real matcher driver with an oracle interpreter, 4-byte haystack with a 2-byte "
+            "char): the forward step. KNOWN FINDINGS: F7 (forward) and F7b (reverse): after a zero-width match the steps are "
+            "not adjacent, and next_back then skips matches. NOT covered: find_last_match_before itself (its loop is outside "
+            "both tools), agreement of the reverse stream with the forward match sequence, interleavings of next/next_back, "
+            "Pattern-level consumers (find, split)."),
 }
 
 ASSUMPTIONS = {
